@@ -570,6 +570,17 @@ func genC16(c *Ctx) {
 		c.Count("k-points~" + strconv.Itoa(len(ks)/16*16))
 		// references that do not depend on k: the uninterrupted searches limited to each depth, and the
 		// follow-up position on a fresh engine
+		// the real path (context -> watcher goroutine -> flag) at a few of the points, and a context of an earlier,
+		// finished call ending in the middle of the next call on the same engine
+		for j := 0; j < 3 && len(ks) > 0; j++ {
+			kk := ks[r.Intn(len(ks))]
+			if !bud.take(3 * total) {
+				break
+			}
+			c.Count("ctxc=" + clip(c.Emit(fmt.Sprintf("ctxc %s %s %d", s.tok(), encPos(p), kk)), 12))
+			c.Count("ctxprev=" + clip(c.Emit(fmt.Sprintf("ctxprev %s %s %s %d", s.tok(), encPos(p), encPos(p2), 1+r.Intn(kk))), 12))
+			c.Count("real-context-route")
+		}
 		refByDepth := map[int]string{}
 		ref2 := c.Emit("search " + s.tok() + " " + encPos(p2))
 		bud.take(minInt(searchCost(ref2), bud.left))
